@@ -711,6 +711,9 @@ func rebase(body, bv, lo, hi string) (string, string, string, string) {
 		if strings.Contains(x, "_q") {
 			continue // depends on another bound variable
 		}
+		if !strings.HasPrefix(x, "(s_off ") {
+			continue // only slice offsets are index bases
+		}
 		counts[x]++
 	}
 	best := ""
